@@ -28,8 +28,11 @@ LEVEL_TEXT = (
     "list items, async-iterator steps, resolve_type / is_type_of results) in all k! orders for small k, "
     "sampled orders up to k=10, same-tick groupings and every sync/awaitable assignment for small k; each "
     "recorded trace is monitored against Proc by the compiled model, and the property's own relations "
-    "(same data and nulled positions as execute_sync, well-formedness, serial mutations) are evaluated on "
-    "every run of the implementation."
+    "(same data and nulled positions as execute_sync, well-formedness, serial mutations in the strict reading: "
+    "every resolver coroutine of an earlier root subtree - cancelled ones included - has finished before the next "
+    "root field starts) are evaluated on every run of the implementation. is_type_of predicates are independently "
+    "absent / synchronous / awaitable per possible type (three object types, interface and union, default type "
+    "resolver and resolve_type)."
 )
 LEVEL_NOTE = (
     "Partial in this sense: the theorems say the *algorithm* (Proc) is schedule independent over all "
@@ -40,7 +43,10 @@ LEVEL_NOTE = (
     "actual callback ordering (the model allows every order; the harness explores completion orders of the "
     "awaitables it controls, not the order of call_soon callbacks inside one tick). Field collection, "
     "argument coercion and leaf serialisation are C02/C16's subject and enter here only as the given field "
-    "tree."
+    "tree. The model lets a failing node settle at once and abandons its unsettled children (cancellation reaches them "
+    "by later transitions), so 'gather_with_cancel waits until the siblings it cancelled have finished unwinding' - "
+    "which the strict serial clause needs - is not a theorem about Proc: it is checked on the implementation by the "
+    "oracle (start / cancel / end events of every harness resolver coroutine, some with awaited cleanup in finally)."
 )
 TECHNIQUE = (
     "Lean 4 theorems about a labelled transition system + trace monitor (compiled model) + controlled "
@@ -61,8 +67,20 @@ ASSUMPTIONS = [
     "resolvers are deterministic functions of their position (fixed request); awaitables deliver the same "
     "outcome whenever they complete",
     "asyncio delivers CancelledError only at await points and `except Exception` does not catch it (Python >= 3.8)",
-    "work below a position already nulled by an error (abandoned work) may continue in the background: the "
-    "serial-mutation clause is read as 'no live work of an earlier root field', as in the reference implementation",
+    "serial clause, strict reading: when root field j starts, every resolver coroutine / awaitable of every earlier "
+    "root subtree has finished - normally, by raising, or by a cancellation whose unwinding (finally blocks, awaited "
+    "cleanup) has run to its end; cancellation is recorded at the moment cancel() is called. A cancelled task that is "
+    "still unwinding when the next root field starts is a violation (gather_with_cancel must await the siblings it "
+    "cancels)",
+    "deviation of the pinned tree from the strict reading, counted in the evidence (serial_background_overlaps, with an "
+    "example) and not reported as a violation (tools/c03_oracle.STRICT_BACKGROUND = False): work that the executor "
+    "abandons WITHOUT cancelling it stays pending until the environment completes it, so the next root field can start "
+    "meanwhile. Two sources, both via Executor.settle_in_background: (1) a selection set nulled by a SYNCHRONOUS error "
+    "while awaitable siblings are pending, e.g. mutation { a { slow nn } b } with slow awaitable and nn: String! "
+    "raising synchronously - b starts while slow is pending and slow's sub-resolvers run after b started; (2) the "
+    "default type resolver finding a synchronously matching is_type_of after awaitable predicates of earlier possible "
+    "types, which are only tracked. Such overlaps are accepted only if the work was never cancelled and lies at or below "
+    "a position that is null in the response, or is a discarded is_type_of result",
 ]
 EXPLANATION = (
     "Theorems: async_invariant (+done_is_denotation, errors_are_predicted, cancellation_only_below_error), "
@@ -110,8 +128,17 @@ def _check_run(case, mask, schedule, ref, ref_nulled, root_order, rep, stats):
         rep.failures.append(Failure(fp, what, inp, {"detail": detail, "result": res}, "well-formed response", "C03 async_wf"))
     if case["op"] == "mutation":
         stats["mutation_runs"] = stats.get("mutation_runs", 0) + 1
-        for fp, what, detail in O.mutation_serial(case, events, res["data"], root_order):
+        viol, background = O.mutation_serial(case, events, res["data"], root_order)
+        for fp, what, detail in viol:
             rep.failures.append(Failure(fp, what, inp, detail, "strictly serial root fields", "C03 mutation_serial"))
+        if background:
+            stats["serial_background_overlaps"] = stats.get("serial_background_overlaps", 0) + 1
+            if "serial_background_example" not in stats:
+                stats["serial_background_example"] = {"document": L.print_doc(case), "mask": sorted(mask), "schedule": schedule, "overlap": background[0]}
+    if any(e[0] == "X2" for e in events):
+        # observation (not part of C03): a task that is waiting for the siblings it cancelled is itself
+        # cancelled, which cancels the siblings a second time and interrupts their cleanup
+        stats["runs_with_second_cancellation_during_cleanup"] = stats.get("runs_with_second_cancellation_during_cleanup", 0) + 1
     if any(e[0] == "C" for e in events):
         stats["runs_with_cancellation"] = stats.get("runs_with_cancellation", 0) + 1
     return res, events
@@ -204,6 +231,10 @@ def _gen(spec):
         return G.gen_lifetime_case(rng), rng
     if stream == "mutation":
         case = G.gen_case(rng, kmax=5, op="mutation")
+    elif stream == "abstract":
+        case = G.gen_abstract_case(rng)
+    elif stream == "cancel":
+        case = G.gen_cancel_case(rng)
     elif stream == "big":
         case = G.gen_case(rng, kmax=10, depth=3, p={"width": 5, "p_comp": 0.55})
     else:
@@ -255,7 +286,9 @@ def _work(args):
 
 def _merge_stats(a, b):
     for k, v in b.items():
-        if isinstance(v, dict):
+        if k.endswith("_example"):
+            a.setdefault(k, v)
+        elif isinstance(v, dict):
             d = a.setdefault(k, {})
             for kk, vv in v.items():
                 d[kk] = d.get(kk, 0) + vv
@@ -274,14 +307,17 @@ def load_corpus():
 def explore(ctx) -> Report:
     fw.use_repo()
     quick = ctx.tier == "quick"
-    n_gen, n_life, n_mut, n_big = (50, 26, 20, 6) if quick else (1100, 500, 300, 100)
+    n_gen, n_life, n_mut, n_big = (50, 26, 30, 6) if quick else (1100, 500, 400, 100)
+    n_abs, n_can = (40, 40) if quick else (600, 600)
     if ctx.escalate and quick:
-        n_gen, n_life, n_mut, n_big = 120, 60, 48, 16
+        n_gen, n_life, n_mut, n_big, n_abs, n_can = 120, 60, 60, 16, 80, 80
     specs = (
         [(ctx.seed, n, "gen") for n in range(n_gen)]
         + [(ctx.seed, n, "lifetime") for n in range(n_life)]
         + [(ctx.seed, n, "mutation") for n in range(n_mut)]
         + [(ctx.seed, n, "big") for n in range(n_big)]
+        + [(ctx.seed, n, "abstract") for n in range(n_abs)]
+        + [(ctx.seed, n, "cancel") for n in range(n_can)]
     )
     random.Random(f"{ctx.seed}:shuffle").shuffle(specs)
     drv = DRIVER if ctx.driver else None
@@ -304,7 +340,9 @@ def explore(ctx) -> Report:
     rep.stats["requests"] = len(specs)
     rep.rule = (
         "one case = one (request, sync/awaitable assignment, completion schedule) run of the implementation under the "
-        "controlled event loop; requests from 4 seeded streams (general, lifetime shapes, mutations, many awaitables); "
+        "controlled event loop; requests from 6 seeded streams (general, lifetime shapes, mutations, many awaitables, abstract types with "
+        "per-type is_type_of predicates independently absent/sync/awaitable, cancellation shapes: a failing non-null "
+        "awaitable among resolver coroutines with awaited cleanup); "
         "per request: every assignment for k<=3 (thorough 4), all k! orders for k<=4 (thorough 5) else <=24 (120) sampled "
         "orders, plus same-tick groupings; a request counts as non-trivial when it has >=2 awaitables or >=1 awaitable "
         "and at least one field error; requests are distinct by construction (distinct generator indices)"
@@ -316,7 +354,7 @@ def search(ctx, rep) -> Report:
     # the property oracle already ran on every explored run; when the model is unavailable
     # or the correspondence broke, explore more requests with the oracle alone
     fw.use_repo()
-    specs = [(ctx.seed + 7919, n, s) for n in range(120) for s in ("gen", "lifetime", "mutation")]
+    specs = [(ctx.seed + 7919, n, s) for n in range(120) for s in ("gen", "lifetime", "mutation", "abstract", "cancel")]
     chunks = fw.chunked(specs, fw.WORKERS * 2)
     reps = fw.pmap(_work, [(c, [], ctx.tier, None) for c in chunks])
     out = Report()
